@@ -54,11 +54,13 @@ def h_state_pair(n):
         names = mk_names(eng, n)
         var_names = NamesSet(names, z3.Const("names_obj", ObjS))
         N0 = st.notify.snapshot()
+        eng.assume(st.I_fresh())
         kind, val = run_catching(it, lambda: it.await_(it.call(it.getattr_(st.cls, "notify_add"), [var_names, SV(q)], {})))
         eng.cover(f"add:{kind}")
         eng.oblige(f"{U}.notify_add/post.no-exception", kind == "ok")
         if kind != "ok":
             return
+        eng.oblige(f"{U}.notify_add/inv.remembered-values-belong-to-watched-entities", st.I_fresh())
         # post of notify_add: subscribed to the entity of every valid name; returns whether any was valid
         for nm in names:
             eng.oblige(f"{U}.notify_add/post.subscribed-to-entity-of-each-valid-name",
@@ -95,6 +97,9 @@ def h_state_pair(n):
                             z3.Implies(valid_name(nm.t), z3.Not(st.has_now(entity_of(nm.t), q))))
             if ob.status == "refuted":
                 ob.witness = wit(ob)
+        ob = eng.oblige(f"{U}.notify_del/inv.remembered-values-belong-to-watched-entities", st.I_fresh())
+        if ob.status == "refuted":
+            ob.witness = {"signature": "remembered-value-outlives-its-notify-entry", "what": "stale-last"}
         eng.oblige(f"{U}.notify_del/frame.other-queues-untouched", st.frame_other_queues(N1, q))
         eng.oblige(f"{U}.notify_del/frame.other-entities-untouched", Forall([NameS], lambda e: z3.Implies(
             z3.Not(z3.Or(*[z3.And(valid_name(nm.t), entity_of(nm.t) == e) for nm in names])) if names else z3.BoolVal(True),
@@ -106,6 +111,8 @@ def h_state_pair(n):
 
 def replay_notify_del(w):
     from replay.native import run_native
+    if w.get("what") == "stale-last":
+        return run_native("c09_state_stale_last", w)
     return run_native("c09_state_notify_del", w)
 
 
